@@ -28,7 +28,7 @@ here are about each site GIVEN its scope, which is the part no sample can settle
 -/
 set_option linter.unusedSimpArgs false
 namespace Sqlc.C10
-open Sqlc Sqlc.Q Sqlc.Spec.Sem
+open Sqlc Sqlc.Q Sqlc.Spec.Sem Sqlc.C02
 
 /-! ### relations -/
 
@@ -198,10 +198,6 @@ theorem witness_ref : (refMatches none C02.wTables "" "id").length = 2 ∧ (refM
 
 /-! ### one query level: the model's rule refines the database's rule -/
 
-/-- one query level as the database sees it, built from the model's tables in scope -/
-def colInfoOf (c : Column) : ColInfo := { name := c.name, dataType := c.dataType, notNull := c.notNull, isArray := c.isArray }
-def relOf (t : Table) : Rel := { qual := t.rel.name, cols := t.columns.map colInfoOf }
-def levelOf (tables : List Table) : Scope := tables.map relOf
 def qualOf (alias : String) : Option String := if alias = "" then none else some alias
 
 /-- the candidates PgSem.resolveCol looks at in one level -/
@@ -306,16 +302,96 @@ theorem C10_flat_level_complete (res : Node) (tables : List Table) (node : Node)
 theorem witness_flat : (match resolveCol [levelOf C02.wTables] (qualOf "b") "id" with | .ok _ => 1 | .error _ => 0) = 1 ∧
     (match resolveCol [levelOf C02.wTables] (qualOf "") "id" with | .error (.columnAmbiguous _) => 1 | _ => 0) = 1 := by decide
 
+/-! ### one query level: the resolved column's attributes -/
+
+/-- the catalog-derived columns a reference (alias, name) matches, before they are renamed for the result -/
+def matched (tables : List Table) (alias name : String) : List Column :=
+  tables.flatMap (fun t => if alias != "" && t.rel.name != alias then [] else t.columns.filter (·.name == name))
+
+theorem refMatches_eq_map (rn : Option String) (tables : List Table) (alias name : String) :
+    refMatches rn tables alias name = (matched tables alias name).map (fun c =>
+      ({ name := rn.getD c.name, table := c.table, dataType := c.dataType, notNull := c.notNull, isArray := c.isArray } : Column)) := by
+  unfold refMatches matched
+  induction tables with
+  | nil => rfl
+  | cons t ts ih =>
+    simp only [List.flatMap_cons, List.map_append]
+    rw [ih]
+    by_cases h : (alias != "" && t.rel.name != alias) = true
+    · simp [h]
+    · simp [h]
+
+theorem specHits_unq_map (tables : List Table) (name : String) :
+    specHits (levelOf tables) none name = (matched tables "" name).map colInfoOf := by
+  unfold specHits levelOf matched
+  induction tables with
+  | nil => rfl
+  | cons t ts ih =>
+    simp only [List.map_cons, List.flatMap_cons, List.map_append] at ih ⊢
+    rw [ih]
+    simp [relOf, colInfoOf, List.filter_map, Function.comp_def]
+
+theorem specHits_q_map (tables : List Table) (alias name : String) (ha : alias ≠ "") :
+    specHits (levelOf tables) (some alias) name = (matched tables alias name).map colInfoOf := by
+  unfold specHits levelOf matched
+  induction tables with
+  | nil => rfl
+  | cons t ts ih =>
+    simp only [List.map_cons, List.flatMap_cons, List.map_append, List.filter_cons] at ih ⊢
+    by_cases hq : t.rel.name = alias
+    · simp [relOf, colInfoOf, hq, ha, List.filter_map, Function.comp_def] at ih ⊢
+      rw [ih]
+    · have hq' : ¬ alias = t.rel.name := fun e => hq e.symm
+      simp [relOf, colInfoOf, hq, hq', ha, List.filter_map, Function.comp_def] at ih ⊢
+      rw [ih]
+
+theorem specHits_eq_map (tables : List Table) (alias name : String) :
+    specHits (levelOf tables) (qualOf alias) name = (matched tables alias name).map colInfoOf := by
+  unfold qualOf
+  by_cases ha : alias = ""
+  · rw [if_pos ha, ha]; exact specHits_unq_map tables name
+  · rw [if_neg ha]; exact specHits_q_map tables alias name ha
+
+/-- **C05, one level (refinement).** When a plain reference resolves — in the model and, on the same level, in
+the database's rule — the result column the model produces carries the data type, nullability and array-ness of
+the very column the database resolves the reference to. -/
+theorem C05_flat_level_attrs (res : Node) (tables : List Table) (node : Node) (alias name : String)
+    (hp : refParts node = some (alias, name)) (cols : List Column)
+    (hok : outputColumnRefs res tables node = .ok cols) (h : ColInfo)
+    (hs : resolveCol [levelOf tables] (qualOf alias) name = .ok h) :
+    ∃ c, cols = [c] ∧ c.dataType = h.dataType ∧ c.notNull = h.notNull ∧ c.isArray = h.isArray := by
+  have hc : cols = refMatches ((res.get "Name").strOpt) tables alias name := by
+    unfold outputColumnRefs at hok
+    rw [hp] at hok
+    simp only at hok
+    split at hok
+    · cases hok
+    · split at hok
+      · cases hok
+      · injection hok with e; exact e.symm
+  rw [resolveCol_single, specHits_eq_map] at hs
+  rw [hc, refMatches_eq_map]
+  match hm : matched tables alias name, hs with
+  | [c0], hs =>
+    simp only [List.map_cons, List.map_nil] at hs ⊢
+    injection hs with e
+    refine ⟨_, rfl, ?_, ?_, ?_⟩ <;> simp [← e, colInfoOf]
+  | [], hs => simp at hs
+  | _ :: _ :: _, hs => simp at hs
+
 /-! ### one query level, parameter-paired columns -/
 
 def entryOf (tm : List TypeMapEntry) (t : TableName) : Option TypeMapEntry :=
   (tm.filter (fun e => e.schema == t.schema && e.name == t.name)).getLast?
 
+/-- a catalog column as the database's rule sees it -/
+def catColInfo (c : CatCol) : ColInfo := { name := c.name, dataType := colDT c, notNull := c.notNull, isArray := c.isArray }
+
 /-- the relations a compared column is searched in, as one database level -/
 def compareLevel (tm : List TypeMapEntry) (search : List TableName) : Scope :=
   search.map (fun t => ({ qual := t.name, cols := match entryOf tm t with
     | none => []
-    | some e => e.cols.map (fun c => ({ name := c.name } : ColInfo)) } : Rel))
+    | some e => e.cols.map catColInfo } : Rel))
 
 theorem filter_nodup_length (l : List CatCol) (key : String) (h : (l.map (·.name)).Nodup) :
     (l.filter (·.name == key)).length = if (l.find? (·.name == key)).isSome then 1 else 0 := by
@@ -353,7 +429,7 @@ theorem compare_hits (names : List (Nat × String)) (num : Nat) (key : String) (
         exact (List.mem_filter.mp this).1
       have hn := filter_nodup_length e.cols key (hnd e hmem)
       simp only [List.filter_map, Function.comp_def, List.length_map]
-      rw [show (e.cols.filter (fun c => ({ name := c.name } : ColInfo).name == key)) = e.cols.filter (·.name == key) from rfl, hn]
+      rw [show (e.cols.filter (fun c => (catColInfo c).name == key)) = e.cols.filter (·.name == key) from rfl, hn]
       cases hf : e.cols.find? (·.name == key) with
       | none => simp
       | some cc => simp; omega
@@ -397,6 +473,100 @@ theorem C10_compare_refines (names : List (Nat × String)) (num : Nat) (key : St
     have hne : ¬ ((compareMatches names num key tm search).length == 0) = true := by
       simp only [beq_iff_eq]; omega
     rw [if_neg hne, if_pos h2]
+theorem filter_nodup_eq (l : List CatCol) (key : String) (h : (l.map (·.name)).Nodup) :
+    l.filter (·.name == key) = (l.find? (·.name == key)).toList := by
+  induction l with
+  | nil => rfl
+  | cons c cs ih =>
+    simp only [List.map_cons, List.nodup_cons] at h
+    by_cases hc : c.name = key
+    · have hnone : cs.filter (·.name == key) = [] := by
+        apply List.filter_eq_nil_iff.mpr
+        intro x hx hxk
+        apply h.1
+        simp only [beq_iff_eq] at hxk
+        rw [hc, ← hxk]
+        exact List.mem_map.mpr ⟨x, hx, rfl⟩
+      simp [List.filter_cons, List.find?_cons, hc, hnone]
+    · simp [List.filter_cons, List.find?_cons, hc, ih h.2]
+
+/-- the catalog columns the comparison arm finds, table by table -/
+def compareCols (key : String) (tm : List TypeMapEntry) (search : List TableName) : List CatCol :=
+  search.filterMap (fun t => typeMapLookup tm t.schema t.name key)
+
+theorem compareMatches_eq (names : List (Nat × String)) (num : Nat) (key : String) (tm : List TypeMapEntry) (search : List TableName) :
+    (compareMatches names num key tm search).map (fun p => p.column.map (fun c => (c.dataType, c.notNull, c.isArray))) =
+      (compareCols key tm search).map (fun cc => some (colDT cc, cc.notNull, cc.isArray)) := by
+  unfold compareMatches compareCols
+  induction search with
+  | nil => rfl
+  | cons t ts ih =>
+    simp only [List.filterMap_cons]
+    cases hl : typeMapLookup tm t.schema t.name key with
+    | none => simpa using ih
+    | some cc => simp [compareParam, ih]
+
+theorem compare_hits_eq (key : String) (tm : List TypeMapEntry)
+    (hnd : ∀ e ∈ tm, (e.cols.map (·.name)).Nodup) (search : List TableName) :
+    specHits (compareLevel tm search) none key = (compareCols key tm search).map catColInfo := by
+  unfold specHits compareLevel compareCols
+  induction search with
+  | nil => rfl
+  | cons t ts ih =>
+    simp only [List.map_cons, List.flatMap_cons, List.filterMap_cons] at ih ⊢
+    rw [ih]
+    unfold typeMapLookup entryOf
+    cases he : (tm.filter (fun e => e.schema == t.schema && e.name == t.name)).getLast? with
+    | none => simp
+    | some e =>
+      have hmem : e ∈ tm := (List.mem_filter.mp (List.mem_of_getLast? he)).1
+      have hf := filter_nodup_eq e.cols key (hnd e hmem)
+      simp only [List.filter_map, Function.comp_def]
+      rw [show (e.cols.filter (fun c => (catColInfo c).name == key)) = e.cols.filter (·.name == key) from rfl, hf]
+      cases hfind : e.cols.find? (·.name == key) with
+      | none => simp
+      | some cc => simp
+
+/-- **C06, one level (refinement).** When the column a placeholder is compared with resolves — in the model and,
+on the level `searchTables` selected, in the database's rule — the parameter takes the data type, nullability and
+array-ness of the very column the database resolves the name to. -/
+theorem C06_compare_attrs (names : List (Nat × String)) (num : Nat) (key : String) (tm : List TypeMapEntry)
+    (hnd : ∀ e ∈ tm, (e.cols.map (·.name)).Nodup) (search : List TableName) (ps : List Parameter) (h : ColInfo)
+    (hok : resolveCompare names num key tm search = .ok ps)
+    (hs : resolveCol [compareLevel tm search] none key = .ok h) :
+    ∃ p c, ps = [p] ∧ p.column = some c ∧ c.dataType = h.dataType ∧ c.notNull = h.notNull ∧ c.isArray = h.isArray := by
+  have hps : ps = compareMatches names num key tm search := by
+    unfold resolveCompare at hok
+    simp only at hok
+    split at hok
+    · cases hok
+    · split at hok
+      · cases hok
+      · injection hok with e; exact e.symm
+  rw [resolveCol_single, compare_hits_eq key tm hnd] at hs
+  have hm := compareMatches_eq names num key tm search
+  rw [← hps] at hm
+  match hc : compareCols key tm search, hs with
+  | [cc], hs =>
+    rw [hc] at hm
+    simp only [List.map_cons, List.map_nil] at hs hm
+    injection hs with e
+    cases ps with
+    | nil => simp at hm
+    | cons p rest =>
+      cases rest with
+      | cons _ _ => simp at hm
+      | nil =>
+        simp only [List.map_cons, List.map_nil, List.cons.injEq, and_true] at hm
+        cases hp : p.column with
+        | none => rw [hp] at hm; simp at hm
+        | some c =>
+          rw [hp] at hm
+          simp only [Option.map_some, Option.some.injEq, Prod.mk.injEq] at hm
+          exact ⟨p, c, rfl, hp, by rw [hm.1, ← e]; rfl, by rw [hm.2.1, ← e]; rfl, by rw [hm.2.2, ← e]; rfl⟩
+  | [], hs => simp at hs
+  | _ :: _ :: _, hs => simp at hs
+
 /-- the hypothesis is met by the witness catalog -/
 example : ∀ e ∈ C06.wTm, (e.cols.map (·.name)).Nodup := by decide
 
